@@ -1262,7 +1262,7 @@ func (e *Engine) scanObligations(p string) []*Obligation {
 							continue
 						}
 					}
-					if name == r.Callee || (!r.Within && r.Pkg != "" && name == r.Pkg+"::"+r.Callee) {
+					if name == r.Callee || (r.Pkg != "" && name == r.Pkg+"::"+r.Callee) {
 						sites++
 						if !allowed[e.funcKey(f)] {
 							bad = append(bad, fmt.Sprintf("%s at %s", e.funcKey(f), posString(e.fset, ins.Pos())))
